@@ -54,6 +54,25 @@ func (x *Exec) callCommon(fr *frame, st *State, cc *ssa.CallCommon, fnv Value, a
 	if r, ok := x.intrinsic(fr, st, name, args); ok {
 		return r
 	}
+	if fr.top && x.fc != nil && x.fc.AtCall != nil {
+		nth := x.count(fr.name + "#atcallsite." + callee.Name())
+		conds := append([]Clause(nil), x.fc.AtCall[callee.Name()]...)
+		conds = append(conds, x.fc.AtCall[fmt.Sprintf("%s@%d", callee.Name(), nth)]...)
+		for _, c := range conds {
+			g := x.evalGoalClause(fr, st, c, x.loopOpts(fr, nil))
+			n := nth
+			x.vc.oblige(&Obligation{Name: fmt.Sprintf("%s#atcall.%s@%d", fr.name, callee.Name(), n), Kind: "pre", Func: fr.name,
+				Guard: st.reach, Goal: g, Src: "before calling " + callee.Name() + ": " + c.Src, Pos: fmt.Sprintf("%s:%d", c.File, c.Line)})
+		}
+	}
+	if x.fc != nil && !x.forceInline {
+		for _, v := range x.fc.Views {
+			if vfc := x.prog.contracts.Funcs[name+"@"+v]; vfc != nil {
+				x.vc.note("call to " + name + " uses its `" + v + "` view (abstract contract): " + vfc.Trusted)
+				return x.applyContract(fr, st, callee, vfc, args, site)
+			}
+		}
+	}
 	if fc := x.prog.contracts.Funcs[name]; fc != nil && fc.HasSpec() && !x.forceInline {
 		if fc.CallersInline {
 			return x.inlineWithFacts(fr, st, callee, fc, args, bind)
@@ -298,6 +317,12 @@ func (x *Exec) applyContract(fr *frame, st *State, callee *ssa.Function, fc *Fun
 func (x *Exec) freshResult(t types.Type, hint string) Value {
 	save := x.vc.Inputs
 	v := x.freshValue(t, hint)
+	if p, ok := v.(Ptr); ok && !p.Nil {
+		// a returned pointer may be nil unless the contract says otherwise
+		c := x.vc.fresh(hint+".isnil", BoolSort)
+		p.May = &c
+		v = p
+	}
 	x.vc.Inputs = save
 	return v
 }
@@ -312,6 +337,10 @@ func (x *Exec) havocPathExpr(fr *frame, st *State, m Clause, opts *evalOpts) {
 			bail("%v", err)
 		}
 		v := x.evalExpr(fr, st, e, opts)
+		if _, isAgg := v.(Agg); isAgg {
+			// a struct-valued variable or field: havoc it in place
+			v = x.evalLValue(fr, st, e, opts)
+		}
 		x.havocDeep(st, v)
 		return
 	}
